@@ -227,6 +227,7 @@ Section Inv.
         { destruct HI as [T C]. split; cbn [w1 out next cur Client.upd app]; [apply tinv_quiet; [exact I|exact T]|].
           rewrite Ec in C. apply cinv_quiet; [exact I|exact C]. }
         destruct rr as [b| |]; [|apply Hclose; left; exact HI1|apply Hclose; left; exact HI1].
+        destruct (length b =? 0)%nat; [intros [= <- <- <-]; split; [exact HI1|auto]|].
         destruct ((32 * (length (pend ++ b) / 32)) =? 0)%nat; [apply IH; exact HI1|].
         destruct (dec (div s) (firstn _ (pend ++ b))) as [pt iv'].
         set (s1 := {| authed := authed s; eiv := eiv s; div := iv' |}).
@@ -273,6 +274,7 @@ Section Inv.
     assert (K : cur msg E w1 = Some j /\ forall k, frames_on k (out msg E w1) = frames_on k (out msg E w)) by (split; [reflexivity|intro k; reflexivity]).
     destruct K as [K1 K2].
     destruct rr as [b| |]; [|destruct (disconnect _ _); discriminate|destruct (disconnect _ _); discriminate].
+    destruct (length b =? 0)%nat; [discriminate|].
     destruct ((32 * (length (pend ++ b) / 32)) =? 0)%nat.
     - intro H. destruct (IH _ _ _ _ _ _ _ _ H) as (A & B & C). split; [congruence|]. split; [intro k; rewrite B; apply K2|discriminate].
     - destruct (dec (div s) _) as [pt iv']. destruct (decode_step buf pt) as [[[rms|]|] buf'].
